@@ -97,9 +97,12 @@ HAND = [
     ("identity", "[CH3:1][OH:2]>>[CH3:1][OH:2]"),
     ("salt", "[Na+:1].[Cl-:2]>>[Na:1][Cl:2]"),
     ("amide-charge", "[CH3:1][C:2](=[O:3])[Cl:4].[NH2-:5]>>[CH3:1][C:2](=[O:3])[NH2:5].[Cl-:4]"),
+    # a spectator molecule: with a centre template the substrate has MORE components than the pattern -- the strict_cc_count guard
+    # region of strategy comp (nothing returned by design), bt falls back to the exhaustive strategy
+    ("spectator-water", "[CH3:1][Br:2].[OH-:3].[OH2:4]>>[CH3:1][OH:3].[Br-:2].[OH2:4]"),
 ]
 
-ALL_STRATEGIES = {"meinwald-implicit", "meinwald-explicit", "glycidyl-ether", "wagner-meerwein", "aziridine-imine", "cyclopropane-open",
+ALL_STRATEGIES = {"spectator-water", "meinwald-implicit", "meinwald-explicit", "glycidyl-ether", "wagner-meerwein", "aziridine-imine", "cyclopropane-open",
                   "identity", "salt", "diels-alder", "suzuki-type"}
 # reactions used for the API-surface and history cases (small, one per feature: explicit H, charges, symmetric, 3-ring, two donors, H2)
 HIST_RX = ["sn2-explicit", "quaternisation", "diels-alder", "meinwald-explicit", "double-donor", "hydrogenation"]
